@@ -10,6 +10,7 @@ tables enter only through `tablesOk`, which is re-checked by `decide` on the tab
 from the live Python classes on every run.
 -/
 import MesonModel.ArgList.SpecLemmas
+import MesonModel.ArgList.NativeLemmas
 import MesonModel.Generated.ArgTables
 
 namespace MesonModel.Props.C13
@@ -17,27 +18,26 @@ open MesonModel.ArgList MesonModel.Generated
 
 /-! ### the lazy object refines the eager list -/
 
-/-- **Main theorem.** For every class configuration, every initial container and every sequence of
-`+=`/`append`/`extend`/`append_direct`/`extend_direct`/`extend_preserving_lflags`/`insert`/
-`[]=`/`del`/`[]`/`list()`/`copy()`/`== list`/`to_native` operations, in any interleaving, the
-outputs of the lazily flushed object are those of the object that is flushed after every operation. -/
-theorem lazy_refines_eager (cfg : Cfg) (init : List Arg) (ops : List Op)
-    (hc : ∀ op ∈ ops, op.claimed = true) :
+/-- **Main theorem (one object).** For every class configuration, every initial container and every
+sequence of `+=`/`append`/`extend`/`append_direct`/`extend_direct`/`extend_preserving_lflags`/
+`insert`/`[]=`/`del`/`[]`/`list()`/`copy()`/`len()`/`== list`/`to_native`/`reverse`/`reversed`/`pop`/
+`remove`/`index`/`count`/`in`/`clear` operations, in any interleaving, the outputs of the lazily
+flushed object are those of the object that is flushed after every operation.  No operation is
+excluded (since the repairs 936d363 and 936b1b4 `len()` and `==` flush too). -/
+theorem lazy_refines_eager (cfg : Cfg) (init : List Arg) (ops : List Op) :
     runLazy cfg (mk init) ops = runEager cfg (mk init) ops := by
-  have := runLazy_eq_runEager_flush cfg ops (mk init) (inv_mk init) hc
+  have := runLazy_eq_runEager_flush cfg ops (mk init) (inv_mk init)
   rwa [flush_mk] at this
 
-/-- the same from any state the object can be in (in particular from a copy's history) -/
-theorem lazy_refines_eager_from (cfg : Cfg) (s : State) (hi : Inv cfg.K s) (ops : List Op)
-    (hc : ∀ op ∈ ops, op.claimed = true) :
+/-- the same from any state the object can be in -/
+theorem lazy_refines_eager_from (cfg : Cfg) (s : State) (hi : Inv cfg.K s) (ops : List Op) :
     runLazy cfg s ops = runEager cfg (flush cfg.K s) ops :=
-  runLazy_eq_runEager_flush cfg ops s hi hc
+  runLazy_eq_runEager_flush cfg ops s hi
 
 /-- the final list (what the backend writes to the command line) is the eager one -/
-theorem lazy_final_eq_eager_final (cfg : Cfg) (init : List Arg) (ops : List Op)
-    (hc : ∀ op ∈ ops, op.claimed = true) :
+theorem lazy_final_eq_eager_final (cfg : Cfg) (init : List Arg) (ops : List Op) :
     finalLazy cfg (mk init) ops = finalEager cfg (mk init) ops := by
-  have := finalLazy_eq_finalEager_flush cfg ops (mk init) (inv_mk init) hc
+  have := finalLazy_eq_finalEager_flush cfg ops (mk init) (inv_mk init)
   rwa [flush_mk] at this
 
 /-- every state reached from a constructed object satisfies the queue invariant -/
@@ -48,25 +48,60 @@ theorem reachable_inv (cfg : Cfg) (init : List Arg) (ops : List Op) :
   | nil => exact fun s h => h
   | cons op ops ih => exact fun s h => ih _ (inv_step cfg s op h)
 
-/-- a copy is an object constructed from the flushed list: `copy()` reads exactly what `list()` reads -/
+/-- `copy()` reads exactly what `list()` reads -/
 theorem copy_reads_flushed_list (cfg : Cfg) (s : State) :
     (step cfg s .copy).2 = (step cfg s .iter).2 := rfl
 
-/-- hypotheses of `lazy_refines_eager` are satisfiable by a script that mixes writes, reads and copies -/
-example : ∀ op ∈ [Op.iadd [['-', 'I', 'a']], .iter, .append ['-', 'D', 'x'], .copy, .insert 0 ['x'], .toNative true],
-    op.claimed = true := by decide
-
-/-! `len()` is the one read that sees the queues: the statement over *all* operations is false. -/
-
-def all_ops_statement : Prop :=
-  ∀ (cfg : Cfg) (init : List Arg) (ops : List Op), runLazy cfg (mk init) ops = runEager cfg (mk init) ops
+/-- `len()` is the length of what `list()` reads (the statement that was false before 936d363:
+`['-Dx'] += ['-Dx']` gave 2) -/
+theorem len_is_length_of_list (cfg : Cfg) (s : State) :
+    (step cfg s .len).2 = .nat (flush cfg.K s).container.length ∧
+    (step cfg s .iter).2 = .list (flush cfg.K s).container := ⟨rfl, rfl⟩
 
 def cfgOf (T : Tables) : Cfg := { K := T.classify, always := T.alwaysDedupArgs, native := .plain }
 
-theorem len_not_refined_counterexample : ¬ all_ops_statement := by
-  intro h
-  have := h (cfgOf clikeTables) [['-', 'D', 'x']] [.iadd [['-', 'D', 'x']], .len]
-  revert this
+/-- the former failing input of `len()`, on the live C-like tables -/
+example : runLazy (cfgOf clikeTables) (mk [['-', 'D', 'x']]) [.iadd [['-', 'D', 'x']], .len] = [.none, .nat 1] := by
+  decide
+
+/-! ### several objects: copies, `a + b`, `list + a`, `a += b`, `Cls(compiler, a)`, `a == b`
+
+A script (`HOp`) works on a heap of objects.  The eager meaning flushes *every* object after every
+operation (`hstepEager`).  All heap operations are covered, including `a == b` between two objects
+that both have pending arguments (stale before 936b1b4). -/
+
+/-- **Main theorem (any number of objects, reads and copies in between).** -/
+theorem heap_lazy_refines_eager (cfg : Cfg) (ops : List HOp) :
+    hrun cfg [] ops = hrunEager cfg [] ops :=
+  hrun_eq_hrunEager_flush cfg ops [] (by intro s hs; cases hs)
+
+/-- from any heap whose objects satisfy the queue invariant -/
+theorem heap_lazy_refines_eager_from (cfg : Cfg) (h : List State) (hh : HInv cfg.K h) (ops : List HOp) :
+    hrun cfg h ops = hrunEager cfg (flushAll cfg.K h) ops :=
+  hrun_eq_hrunEager_flush cfg ops h hh
+
+/-- every heap reached by a script satisfies the invariant -/
+theorem heap_reachable_inv (cfg : Cfg) (ops : List HOp) :
+    HInv cfg.K (ops.foldl (fun h op => (hstep cfg h op).1) []) := by
+  suffices h : ∀ g, HInv cfg.K g → HInv cfg.K (ops.foldl (fun h op => (hstep cfg h op).1) g) from
+    h _ (by intro s hs; cases hs)
+  induction ops with
+  | nil => exact fun g h => h
+  | cons op ops ih => exact fun g h => ih _ (hinv_hstep cfg g op h)
+
+/-- `a == b` compares the two eager lists -/
+theorem eq_objects_compares_eager_lists (cfg : Cfg) (h : List State) (i j : Nat) (si sj : State)
+    (hi : h[i]? = some si) (hj : h[j]? = some sj) (hne : i ≠ j) :
+    (hstep cfg h (.eqObj i j)).2 =
+      .bool (decide ((flush cfg.K si).container = (flush cfg.K sj).container)) := by
+  have : (h.set i (flush cfg.K si))[j]? = some sj := by
+    rw [List.getElem?_set_ne hne]; exact hj
+  simp [hstep, hi, this]
+
+/-- the former failing input of `==`: `['-Dx','-O2'] == (['-Dx'] += ['-O2'])` -/
+example : hrun (cfgOf clikeTables) []
+    [.new [['-', 'D', 'x'], ['-', 'O', '2']], .new [['-', 'D', 'x']], .on 1 (.iadd [['-', 'O', '2']]), .eqObj 0 1] =
+    [.none, .none, .none, .bool true] := by
   decide
 
 /-! ### the eager `+=` is the specification -/
@@ -313,6 +348,25 @@ example : dTablesLit.classify.dd ['-', 'L', 'x', '.', 'a'] = .unique ∧ dTables
   decide
 
 /-! ### `to_native` -/
+
+/-- **placement of `-Wl,--start-group` / `-Wl,--end-group`, for every list**: with fewer than two
+library-like arguments nothing changes; otherwise, with `a` the first and `b` the last library-like
+argument, the result is the same list with the start marker directly before `a` and the end marker
+directly after `b` -- every library-like argument is inside the group, the group is contiguous,
+nothing else moves -/
+theorem to_native_group_placement (l : List Arg) :
+    (addGroups l = l ∧ (l.filter groupFlags).length ≤ 1) ∨
+    ∃ pre a mid b post, l = pre ++ (a :: (mid ++ (b :: post))) ∧
+      groupFlags a = true ∧ groupFlags b = true ∧
+      (∀ x ∈ pre, groupFlags x = false) ∧ (∀ x ∈ post, groupFlags x = false) ∧
+      addGroups l = pre ++ (startGroup :: a :: (mid ++ (b :: endGroup :: post))) :=
+  group_placement l
+
+/-- both branches of the placement theorem occur -/
+example : addGroups [['-', 'l', 'a'], ['x'], ['y', '.', 'a']] =
+    [startGroup, ['-', 'l', 'a'], ['x'], ['y', '.', 'a'], endGroup] ∧ addGroups [['-', 'l', 'a'], ['x']] = [['-', 'l', 'a'], ['x']] := by
+  decide
+
 
 def groupMarkers : List Arg :=
   [['-', 'W', 'l', ',', '-', '-', 's', 't', 'a', 'r', 't', '-', 'g', 'r', 'o', 'u', 'p'],
